@@ -8,6 +8,8 @@ package main
 import (
 	"fmt"
 	"go/constant"
+	"math/big"
+	"sort"
 	"go/token"
 	"go/types"
 	"strconv"
@@ -212,6 +214,52 @@ func (t *termer) val(v ssa.Value) string {
 		}
 		return x.Op.String() + t.val(x.X)
 	case *ssa.BinOp:
+		// commutative, associative integer operations are flattened and written in one order
+		// (operands sorted, constants folded and last; `x + 0` is x), so `from + i`, `i + from`
+		// and `(a + b) + c`, `a + (b + c)` are one term
+		if isCommutativeInt(x) {
+			var ops []string
+			var k *big.Int
+			var flat func(v ssa.Value)
+			flat = func(v ssa.Value) {
+				if ph, isPhi := v.(*ssa.Phi); isPhi && x.Block() != nil && !t.noSuffix {
+					v = resolveUnderGuards(ph, x.Block())
+				}
+				if bo, ok := v.(*ssa.BinOp); ok && bo.Op == x.Op && isCommutativeInt(bo) && types.Identical(bo.Type(), x.Type()) {
+					if _, aliased := termAlias[v]; !aliased {
+						flat(bo.X)
+						flat(bo.Y)
+						return
+					}
+				}
+				if c, ok := v.(*ssa.Const); ok && c.Value != nil && c.Value.Kind() == constant.Int && (x.Op == token.ADD || x.Op == token.MUL) {
+					n, _ := new(big.Int).SetString(c.Value.ExactString(), 10)
+					if n != nil {
+						if k == nil {
+							k = n
+						} else if x.Op == token.ADD {
+							k = new(big.Int).Add(k, n)
+						} else {
+							k = new(big.Int).Mul(k, n)
+						}
+						return
+					}
+				}
+				ops = append(ops, t.val(v))
+			}
+			flat(x)
+			sort.Strings(ops)
+			if k != nil && !((x.Op == token.ADD && k.Sign() == 0) || (x.Op == token.MUL && k.Cmp(big.NewInt(1)) == 0)) {
+				ops = append(ops, k.String())
+			}
+			if len(ops) == 0 && k != nil {
+				return k.String()
+			}
+			if len(ops) == 1 {
+				return ops[0]
+			}
+			return "(" + strings.Join(ops, " "+x.Op.String()+" ") + ")"
+		}
 		return "(" + t.val(x.X) + " " + x.Op.String() + " " + t.val(x.Y) + ")"
 	case *ssa.Call:
 		if rv, f := transparentResult(&x.Call); rv != nil {
@@ -252,8 +300,11 @@ func (t *termer) val(v ssa.Value) string {
 			s = t.deref(x.X)
 		}
 		lo, hi := "", ""
-		if x.Low != nil {
-			lo = t.val(x.Low)
+		if x.Low != nil && !isConstInt(x.Low, 0) {
+			lo = t.val(x.Low) // s[0:n] is s[:n]
+		}
+		if _, isPtr := x.X.Type().Underlying().(*types.Pointer); !isPtr && lo == "" && x.High == nil && x.Max == nil {
+			return s // s[0:] and s[:] are s
 		}
 		if x.High != nil {
 			hi = t.val(x.High)
@@ -320,6 +371,16 @@ func (t *termer) val(v ssa.Value) string {
 		return "select"
 	}
 	return fmt.Sprintf("?%T", v)
+}
+
+func isCommutativeInt(x *ssa.BinOp) bool {
+	switch x.Op {
+	case token.ADD, token.MUL, token.AND, token.OR, token.XOR:
+	default:
+		return false
+	}
+	b, ok := x.Type().Underlying().(*types.Basic)
+	return ok && b.Info()&types.IsInteger != 0
 }
 
 func allocIndex(a *ssa.Alloc) string {
